@@ -1,5 +1,6 @@
 import OmplModel.Proofs.Heap
 import OmplModel.Proofs.HeapHole
+import OmplModel.Proofs.HeapPos
 /-!
 # C11 — the updatable heap always pops in order, whatever was removed or updated
 
@@ -12,6 +13,9 @@ All theorems are arithmetic-free: they hold for whatever the key type is.
 -/
 namespace OmplModel.Props.C11
 open OmplModel.Heap
+
+/-- `<` on `Nat` (used by the non-vacuity examples) -/
+def ltNat' : Nat → Nat → Bool := fun a b => decide (a < b)
 
 variable {κ : Type}
 
@@ -108,6 +112,24 @@ theorem percolateUp_as_coded (lt : κ → κ → Bool) (a : Array (Elem κ)) (po
 
 theorem percolateDown_as_coded (lt : κ → κ → Bool) (a : Array (Elem κ)) (pos : Nat) :
     percolateDown lt a pos = siftDown lt a pos := percolateDown_eq_siftDown lt a pos
+
+/-! ## The position field
+
+`Model/HeapPos.lean` stores `Element::position` explicitly (a table handle ↦ position written next to every
+array store, as the code does) and addresses `remove(handle)` / `update(handle)` through it.  For every
+sequence of insert / remove / update / pop that respects the API contract (`LiveRun`: handles passed to
+`remove`/`update` are live) the position-driven heap is in step with the handle-search model the theorems
+above are about, and every element's position equals its index. -/
+
+theorem position_field_refines_search (lt : κ → κ → Bool) (ops : List (Op κ)) (L : LiveRun lt Heap.empty ops) :
+    ((({} : PHeap κ).run lt ops).arr = (reach lt ops).arr) ∧
+      PosSync (({} : PHeap κ).run lt ops).arr (({} : PHeap κ).run lt ops).pos := by
+  have R := run_rel lt ops {} Heap.empty empty_rel empty_wf L
+  exact ⟨R.arr, R.sync⟩
+
+/-- non-vacuity: a contract-respecting sequence -/
+example : LiveRun ltNat' (Heap.empty : Heap Nat) [.insert 5, .insert 3, .insert 9] := by
+  simp [LiveRun]
 
 /-! ## The defect repaired by the `fix:` commit (F1)
 
